@@ -65,11 +65,11 @@ func (r *rw) fail(p token.Pos, msg string) {
 }
 
 var (
-	exprT  = reflect.TypeOf((*ast.Expr)(nil)).Elem()
-	stmtT  = reflect.TypeOf((*ast.Stmt)(nil)).Elem()
-	nodeT  = reflect.TypeOf((*ast.Node)(nil)).Elem()
-	declT  = reflect.TypeOf((*ast.Decl)(nil)).Elem()
-	specT  = reflect.TypeOf((*ast.Spec)(nil)).Elem()
+	exprT = reflect.TypeOf((*ast.Expr)(nil)).Elem()
+	stmtT = reflect.TypeOf((*ast.Stmt)(nil)).Elem()
+	nodeT = reflect.TypeOf((*ast.Node)(nil)).Elem()
+	declT = reflect.TypeOf((*ast.Decl)(nil)).Elem()
+	specT = reflect.TypeOf((*ast.Spec)(nil)).Elem()
 )
 
 // children rewrites every child expression / statement of n in place.
@@ -520,6 +520,16 @@ func main() {
 			for _, e := range ents {
 				if !e.IsDir() {
 					names = append(names, e.Name())
+				}
+			}
+			// files that exist only among the replacement sources (a change that adds a file to the package)
+			if overDir != "" {
+				if more, err := os.ReadDir(filepath.Join(overDir, d)); err == nil {
+					for _, e := range more {
+						if _, err := os.Stat(filepath.Join(*repo, d, e.Name())); err != nil && !e.IsDir() {
+							names = append(names, e.Name())
+						}
+					}
 				}
 			}
 		}
